@@ -816,6 +816,9 @@ type Guard struct {
 	// Extra lists further symbols a Whole condition may mention besides those of Alts; any other program symbol
 	// in the compound condition (an added escape hatch such as `&& op != NOP`) disqualifies it as a guard.
 	Extra []string
+	// WholeOpen admits any compound condition as a whole (no closed mention set): for rules that check the
+	// kind of comparison themselves.
+	WholeOpen bool
 }
 
 // GateResult describes the verdict for one guard.
@@ -857,7 +860,9 @@ func (f *FuncCFG) CheckGateIn(region ast.Node, from []*cfg.Block, targets map[*c
 			continue
 		}
 		atoms := condAtoms(c)
-		if g.Whole && len(atoms) > 1 {
+		if g.WholeOpen && len(atoms) > 1 {
+			atoms = append(atoms, atom{c, true, true})
+		} else if g.Whole && len(atoms) > 1 {
 			allowed := map[string]bool{}
 			for _, alt := range g.Alts {
 				for _, s := range alt {
@@ -1122,113 +1127,3 @@ func (f *FuncCFG) CheckMustNode(from []*cfg.Block, targets map[*cfg.Block]bool, 
 	return true, nil, len(sites)
 }
 
-// nilFactsOf records what `cond == value` implies about identifiers compared with nil (atoms only).
-func (f *FuncCFG) nilFactsOf(cond ast.Expr, value bool, facts map[types.Object]bool) bool {
-	var atoms []struct {
-		e ast.Expr
-		v bool
-	}
-	impliedAtoms(cond, value, &atoms)
-	for _, a := range atoms {
-		be, ok := ast.Unparen(a.e).(*ast.BinaryExpr)
-		if !ok || (be.Op != token.EQL && be.Op != token.NEQ) {
-			continue
-		}
-		var id *ast.Ident
-		if x, ok := ast.Unparen(be.X).(*ast.Ident); ok && isNilIdent(f.Info, be.Y) {
-			id = x
-		} else if y, ok := ast.Unparen(be.Y).(*ast.Ident); ok && isNilIdent(f.Info, be.X) {
-			id = y
-		}
-		if id == nil {
-			continue
-		}
-		o := f.Info.ObjectOf(id)
-		isNil := (be.Op == token.EQL) == a.v
-		if old, ok := facts[o]; ok && old != isNil {
-			return false // contradiction: infeasible
-		}
-		facts[o] = isNil
-	}
-	return true
-}
-
-// reachesNilAware: can a target be reached from start without entering blocks in avoid, honouring what is
-// known about nil-ness of identifiers (facts are killed by assignments)?
-func (f *FuncCFG) reachesNilAware(start *cfg.Block, avoid, targets map[*cfg.Block]bool, assume *Assume, facts map[types.Object]bool) bool {
-	type st struct {
-		b *cfg.Block
-		k string
-	}
-	key := func(m map[types.Object]bool) string {
-		var ps []string
-		for o, v := range m {
-			ps = append(ps, fmt.Sprintf("%s@%d=%v", o.Name(), o.Pos(), v))
-		}
-		sort.Strings(ps)
-		return strings.Join(ps, ",")
-	}
-	type item struct {
-		b *cfg.Block
-		m map[types.Object]bool
-	}
-	if avoid[start] {
-		return false
-	}
-	seen := map[st]bool{}
-	work := []item{{start, facts}}
-	for len(work) > 0 {
-		it := work[len(work)-1]
-		work = work[:len(work)-1]
-		sk := st{it.b, key(it.m)}
-		if seen[sk] || len(seen) > 4000 {
-			continue
-		}
-		seen[sk] = true
-		if targets[it.b] {
-			return true
-		}
-		m := map[types.Object]bool{}
-		for k, v := range it.m {
-			m[k] = v
-		}
-		for _, n := range it.b.Nodes {
-			inspectNoLit(n, func(x ast.Node) bool {
-				switch a := x.(type) {
-				case *ast.AssignStmt:
-					for _, l := range a.Lhs {
-						if id, ok := l.(*ast.Ident); ok {
-							delete(m, f.Info.ObjectOf(id))
-						}
-					}
-				case *ast.UnaryExpr:
-					if a.Op == token.AND {
-						if id, ok := ast.Unparen(a.X).(*ast.Ident); ok {
-							delete(m, f.Info.ObjectOf(id))
-						}
-					}
-				}
-				return true
-			})
-		}
-		succs := f.Succs(it.b, assume)
-		for _, s := range succs {
-			if avoid[s] {
-				continue
-			}
-			nm := map[types.Object]bool{}
-			for k, v := range m {
-				nm[k] = v
-			}
-			if len(it.b.Succs) == 2 {
-				if c := f.Cond(it.b); c != nil {
-					if !f.nilFactsOf(c, s == it.b.Succs[0], nm) {
-						continue
-					}
-				}
-			}
-			work = append(work, item{s, nm})
-		}
-	}
-	return false
-}
